@@ -17,7 +17,7 @@ import (
 	"github.com/buildbarn/bb-storage/pkg/digest"
 	"github.com/buildbarn/bb-storage/pkg/proto/iscc"
 	"github.com/prometheus/client_golang/prometheus"
-	"github.com/prometheus/client_golang/prometheus/collectors"
+	dto "github.com/prometheus/client_model/go"
 	"pgregory.net/rapid"
 
 	"google.golang.org/grpc/codes"
@@ -172,6 +172,7 @@ func (m *statsModel) asMap() map[uint32]*iscc.PerSizeClassStats {
 // The case
 
 type wfAction struct {
+	touched     bool // a Selector/Learner of this action was called since the last comparison
 	commandHash string
 	key         string
 	model       *statsModel
@@ -282,17 +283,35 @@ func (p calcParams) build() initialsizeclass.StrategyCalculator {
 // calculator has performed so far (its Prometheus histogram is the only
 // place where this is visible): number of computations and their sum.
 func pageRankIterations() (uint64, float64) {
-	mfs, err := prometheus.DefaultGatherer.Gather()
-	if err != nil {
+	if iterationsHistogram == nil {
 		return 0, 0
 	}
-	for _, mf := range mfs {
-		if mf.GetName() == "buildbarn_builder_page_rank_strategy_calculator_convergence_iterations" && len(mf.Metric) > 0 {
-			h := mf.Metric[0].GetHistogram()
-			return h.GetSampleCount(), h.GetSampleSum()
+	var m dto.Metric
+	if err := iterationsHistogram.Write(&m); err != nil {
+		return 0, 0
+	}
+	return m.GetHistogram().GetSampleCount(), m.GetHistogram().GetSampleSum()
+}
+
+// iterationsHistogram is the calculator's own (unexported) histogram,
+// obtained from the default registry by trying to register a histogram
+// with the same name.
+var iterationsHistogram prometheus.Metric
+
+func findIterationsHistogram() {
+	initialsizeclass.NewPageRankStrategyCalculator(0, 0, 1, 0.1) // registers the histogram
+	err := prometheus.Register(prometheus.NewHistogram(prometheus.HistogramOpts{
+		Namespace: "buildbarn",
+		Subsystem: "builder",
+		Name:      "page_rank_strategy_calculator_convergence_iterations",
+		Help:      "Number of iterations matrix multiplication was performed until convergence.",
+		Buckets:   prometheus.ExponentialBuckets(1.0, 2.0, 11),
+	}))
+	if are, ok := err.(prometheus.AlreadyRegisteredError); ok {
+		if m, ok := are.ExistingCollector.(prometheus.Metric); ok {
+			iterationsHistogram = m
 		}
 	}
-	return 0, 0
 }
 
 func (c *wfCase) labelIterations(countBefore uint64, sumBefore float64) {
@@ -351,6 +370,10 @@ func checkStrategies(failf func(string, ...any), strategies []initialsizeclass.S
 
 func (c *wfCase) compareStats() {
 	for i, a := range c.actions {
+		if !a.touched {
+			continue
+		}
+		a.touched = false
 		actual := c.store.msgs[a.key]
 		keySet := map[uint32]bool{}
 		for k := range a.model.buckets {
@@ -418,7 +441,9 @@ func (c *wfCase) pick(label string, pred func(*wfChain) bool) *wfChain {
 	if len(cands) == 0 {
 		c.rt.Skip("no chain in the right state")
 	}
-	return cands[rapid.IntRange(0, len(cands)-1).Draw(c.rt, label)]
+	ch := cands[rapid.IntRange(0, len(cands)-1).Draw(c.rt, label)]
+	ch.action.touched = true
+	return ch
 }
 
 func (c *wfCase) opAnalyze() {
@@ -433,6 +458,7 @@ func (c *wfCase) opAnalyze() {
 	}
 	ai := rapid.IntRange(0, len(c.actions)-1).Draw(c.rt, "action")
 	a := c.actions[ai]
+	a.touched = true
 	action := &remoteexecution.Action{
 		CommandDigest:   &remoteexecution.Digest{Hash: a.commandHash, SizeBytes: 123},
 		InputRootDigest: &remoteexecution.Digest{Hash: a.commandHash, SizeBytes: int64(rapid.IntRange(0, 5).Draw(c.rt, "inputRoot"))},
@@ -794,6 +820,7 @@ func (c *wfCase) runProtocol() {
 		}
 		c.store.msgs[a.key] = st
 		a.model = newStatsModel(st)
+		a.touched = true
 		c.actions = append(c.actions, a)
 	}
 
@@ -830,8 +857,12 @@ func (c *wfCase) runProtocol() {
 		} else {
 			ch.learner.Abandoned()
 		}
+		ch.action.touched = true
 		c.add("finalAbandon", fmt.Sprintf("chain=%d", ch.id), "")
 		ch.selector, ch.learner, ch.done = nil, nil, true
+	}
+	for _, a := range c.actions {
+		a.touched = true
 	}
 	c.compareStats()
 	c.checkHandles()
@@ -1057,11 +1088,7 @@ func TestC07ChoicesWellFormed(t *testing.T) {
 			"and sum <= 1 (1e-9), at most n strategies, IsFaster in (0,1), x.IsFaster(x)=0.5, x.IsFaster(y)+y.IsFaster(x)=1, one release per request, and recorded stats equal to a "+
 			"model fed with the reported outcomes (right bucket, bounded history). NON-TRIVIAL: at least two size classes (or two outcome sets) holding both successes and "+
 			"failures/timeouts; distinct by script hash")
-	// Keep reading the iteration histogram cheap: drop the collectors
-	// that client_golang registers by default.
-	prometheus.Unregister(collectors.NewGoCollector())
-	prometheus.Unregister(collectors.NewProcessCollector(collectors.ProcessCollectorOpts{}))
-	initialsizeclass.NewPageRankStrategyCalculator(0, 0, 1, 0.1) // registers the histogram
+	findIterationsHistogram()
 	rapid.Check(t, func(rt *rapid.T) {
 		c := &wfCase{rt: rt, labels: map[string]bool{}}
 		mode := rapid.SampledFrom([]string{
@@ -1090,18 +1117,17 @@ func TestC07ChoicesWellFormed(t *testing.T) {
 		rec.Case(c.script, c.mixed, labels...)
 	})
 	// Diagnostic: how many power iterations the PageRank calculator needed.
-	if mfs, err := prometheus.DefaultGatherer.Gather(); err == nil {
-		for _, mf := range mfs {
-			if mf.GetName() == "buildbarn_builder_page_rank_strategy_calculator_convergence_iterations" && len(mf.Metric) > 0 {
-				h := mf.Metric[0].GetHistogram()
-				top := 0.0
-				for _, b := range h.GetBucket() {
-					if b.GetCumulativeCount() < h.GetSampleCount() {
-						top = b.GetUpperBound()
-					}
+	if iterationsHistogram != nil {
+		var m dto.Metric
+		if iterationsHistogram.Write(&m) == nil {
+			h := m.GetHistogram()
+			top := 0.0
+			for _, b := range h.GetBucket() {
+				if b.GetCumulativeCount() < h.GetSampleCount() {
+					top = b.GetUpperBound()
 				}
-				rec.Note(fmt.Sprintf("power iteration: %d computations, %.0f iterations in total, every one finished; slowest needed more than %.0f iterations", h.GetSampleCount(), h.GetSampleSum(), top))
 			}
+			rec.Note(fmt.Sprintf("power iteration: %d computations, %.0f iterations in total, every one finished; slowest needed more than %.0f iterations", h.GetSampleCount(), h.GetSampleSum(), top))
 		}
 	}
 }
